@@ -891,7 +891,6 @@ def _contract_resume(case):
         reached = False
         history = []
         for n, it in enumerate(interrupts):
-            before = store_view(out)
             o, calls, log = (run_apply_forked if sigkill else run_apply)(work, out, ids, "w" if n == 0 else "a", it)
             history.append((it, o, calls, log))
             if o != "return":
@@ -903,6 +902,7 @@ def _contract_resume(case):
                   and after.get(f"md5/{i}.txt") == ref.get(f"md5/{i}.txt")}
         o, calls, _ = run_apply(work, out, ids, "a")
         final = store_view(out)
+
         def describe(it):
             if it[0] == "record":
                 return "kill@record-boundary"
